@@ -139,4 +139,15 @@ let () =
                 Printf.printf "ITEM %s HDRBODY1 %s\n" name (show_tts td.td_ref_body);
                 List.iteri (fun k a -> Printf.printf "ITEM %s HDRALIAS%d %s\n" name k (show_tts a)) td.td_aliases;
                 Printf.printf "ITEM %s HDRDEFS %d\n" name (2 + List.length td.td_aliases)))
+    | "SHAPEOF" :: name :: _ ->
+      (* the shape the front end assigns to a declaration (coq/glue/DeclShape.v); nested types are looked up among all items parsed so far *)
+      let e = Hashtbl.fold (fun k d acc -> (cstr k, d) :: acc) parsed_items [] in
+      let rec show_shape = function SEnum -> "E" | SStruct fs -> "S(" ^ String.concat "," (show_fields fs) ^ ")"
+      and show_fields = function FNil -> [] | FCons (f, r) -> show_strat f :: show_fields r
+      and show_strat = function
+        | FPlain -> "P" | FSkip -> "K" | FRecurse s -> "R" ^ show_shape s | FRecurseOpt s -> "Q" ^ show_shape s
+        | FOrdered -> "L" | FUnordArr -> "U" | FMapFlat -> "M" | FMapRec (ko, s) -> "N" ^ (if ko then "1" else "0") ^ show_shape s in
+      (match Hashtbl.find_opt parsed_items name with
+       | None -> Printf.printf "SHAPEOF %s MISSING\n" name
+       | Some d -> Printf.printf "SHAPEOF %s %s\n" name (match shape_of (nat_of_int 40) e d with Some sh -> show_shape sh | None -> "NONE"))
     | _ -> ())
